@@ -60,6 +60,49 @@ Theorem C17_parser_total : forall fx data, bytes_ok data ->
 Proof. exact parse_ex_safe. Qed.
 Print Assumptions C17_parser_total.
 
+(** Codec layer, VP8L (specification decoder Vp8l.Vp8lSpec.decode, tied to
+    internal/lossless by C03's differential execution): a byte string that decodes
+    still decodes, to the same image, when bytes are appended.  Hence a proper
+    prefix of a VP8L stream is rejected or yields exactly the picture of the
+    complete stream. *)
+From Webp Require Vp8l.Vp8lSpec Riff.PrefixVp8l Alpha.AlphaModel Alpha.AlphaProofs.
+Theorem C17_vp8l_decode_monotone : forall d ext img,
+  Vp8lSpec.decode d = Ok img -> Vp8lSpec.decode (d ++ ext) = Ok img.
+Proof. exact PrefixVp8l.vp8l_decode_monotone. Qed.
+Print Assumptions C17_vp8l_decode_monotone.
+
+Theorem C17_vp8l_prefix_all_or_nothing : forall full p ext img,
+  full = p ++ ext -> Vp8lSpec.decode full = Ok img ->
+  (exists e, Vp8lSpec.decode p = Err e) \/ Vp8lSpec.decode p = Ok img \/ Vp8lSpec.decode p = Panic.
+Proof. exact PrefixVp8l.vp8l_prefix_all_or_nothing. Qed.
+Print Assumptions C17_vp8l_prefix_all_or_nothing.
+
+(** Codec layer, ALPH with a raw payload (model Alpha.AlphaModel.decode, C07 area):
+    fewer than w*h bytes => error; w*h bytes or more => the same plane whatever
+    follows. *)
+Theorem C17_alph_raw_truncated : forall (ldec : Z -> Z -> list Z -> option (list Z)) hd payload w h,
+  hd mod 4 = 0 -> 1 <= w -> 1 <= h -> w * h <= 2^30 -> Z.of_nat (length payload) < w * h ->
+  exists e, AlphaModel.decode ldec (hd :: payload) w h = Err e.
+Proof. exact AlphaProofs.decode_raw_truncated. Qed.
+Print Assumptions C17_alph_raw_truncated.
+
+Theorem C17_alph_raw_monotone : forall (ldec : Z -> Z -> list Z -> option (list Z)) hd payload ext w h plane,
+  hd mod 4 = 0 ->
+  AlphaModel.decode ldec (hd :: payload) w h = Ok plane ->
+  AlphaModel.decode ldec (hd :: payload ++ ext) w h = Ok plane.
+Proof. exact PrefixVp8l.alph_raw_monotone. Qed.
+Print Assumptions C17_alph_raw_monotone.
+
+(** ALPH with any payload kind, for every lossless coder that is itself
+    prefix-monotone (the VP8L specification decoder is, by the theorem above). *)
+Theorem C17_alph_monotone : forall (ldec : Z -> Z -> list Z -> option (list Z)),
+  (forall w h p ext g, ldec w h p = Some g -> ldec w h (p ++ ext) = Some g) ->
+  forall hd payload ext w h plane,
+    AlphaModel.decode ldec (hd :: payload) w h = Ok plane ->
+    AlphaModel.decode ldec (hd :: payload ++ ext) w h = Ok plane.
+Proof. exact PrefixVp8l.alph_monotone. Qed.
+Print Assumptions C17_alph_monotone.
+
 (** Pinned tree (parser before commit 86109c7, [pinned_*] definitions): the
     statement is false (finding, repaired). *)
 Theorem C17_features_prefix_refuted :
